@@ -405,7 +405,7 @@ fn reject_class(ty: &DynTy, _v: &DynVal) -> &'static str {
     }
 }
 
-fn random_json(rng: &mut Rng, depth: u32) -> Tree {
+pub fn random_json(rng: &mut Rng, depth: u32) -> Tree {
     match rng.below(if depth == 0 { 8 } else { 11 }) {
         0 => Tree::Null,
         1 => Tree::Bool(rng.chance(1, 2)),
